@@ -23,7 +23,7 @@ var (
 	fMinTries = flag.Int("mintries", 400, "minimiser budget (executions)")
 	fDump     = flag.Bool("dump", false, "print the generated tape and exit")
 	fNoMin    = flag.Bool("nomin", false, "do not minimise")
-	fMaxRSS   = flag.Int("maxrss", 3000, "stop starting new seeds when resident memory exceeds this many MB (the driver re-queues the rest)")
+	fMaxRSS   = flag.Int("maxrss", 2000, "stop starting new seeds when resident memory exceeds this many MB (the driver re-queues the rest)")
 )
 
 // TestSim is the single entry point of the qedsim binary.
@@ -158,14 +158,4 @@ func TestSim(t *testing.T) {
 		}
 		emit(res)
 	}
-}
-
-func rssMB() int {
-	b, err := os.ReadFile("/proc/self/statm")
-	if err != nil {
-		return 0
-	}
-	var size, rss int
-	fmt.Sscanf(string(b), "%d %d", &size, &rss)
-	return rss * 4096 >> 20
 }
